@@ -69,6 +69,15 @@ def run(ctx: Ctx):
             rule="case = (reduction, label pattern, values, chunking, method, split_every, engine); postcondition: index along the reduced axis of the whole array of the first extreme / the first or last member in the whole array (NumPy on the group's members); non-trivial = >=3 blocks",
             nontrivial=lambda c: len(c["chunks"][-1]) >= 3,
         )
+    if getattr(ctx, "only", None) != "proof":
+        from ..rtc.tree_case import tree_cases
+
+        run_bounded(
+            ctx, "C06.rtc.tree_builder", "flox.dask_array_ops._tree_reduce / partial_reduce / get_parts", tree_cases(24 if ctx.quick else 64, 8 if ctx.quick else 12), "vlib.rtc.tree_case:check_tree",
+            bound="EXHAUSTIVE over #blocks 1..%d x split_every 2..%d and the config default x 1-2 batch blocks x two block_index values" % ((24, 8) if ctx.quick else (64, 12)),
+            rule="postcondition on the graph dict: one root per batch index at (.., block_index); the leaves under each root are exactly its batch's blocks 0..n-1, once each, in increasing order; every task combines 1..split_every consecutive blocks of its own batch index; intermediate keys used exactly once; non-trivial = depth >= 2",
+            nontrivial=lambda c: c["nblocks"] > (c["split_every"] or 4), exhaustive=True, chunksize=16,
+        )
     ctx.assume("numpy_groupies argmax/argmin return the first occurrence (assumed contract, exercised by the bounded part)")
     ctx.trust("dask.blockwise.lol_tuples ordering", "dask tree reduction ordering", "numpy_groupies arg reductions", "z3 / cvc5")
     return "other", ("Mixed: tree ordering / index mapping obligations proved on the real source; the end-to-end contract is a bounded stand-in. " + note)
